@@ -4,4 +4,5 @@ import Props.C04
 import Props.C05
 import Props.C06
 import Props.C08
+import Props.C10
 import Props.C19
